@@ -34,19 +34,193 @@ def grammar_batches(prop, tier, n_quick, n_thorough, per_tu, cfg, core=True, str
                       'flavour': flavour, 'cfg': cfg})
     return specs
 
+
+def gen_grammars(prop, tier, n, profile):
+    """deterministic (seed, property) list of grammars for a profile"""
+    rnd = random.Random(common.seed() * 7919 + sum(map(ord, prop)))
+    out = []; seen = set()
+    def add(g):
+        k = g.key()
+        if k in seen: return
+        seen.add(k); out.append(g)
+    core = gg.core_grammars()
+    if profile == 'plain':
+        for g in core: add(g)
+        st = gg.grammar_stream(rnd)
+        while len(out) < n: add(next(st)[0])
+    elif profile == 'allclasses':
+        for g in core: add(g)
+        st = gg.grammar_stream(rnd, want_lr1=0.35)
+        while len(out) < n:
+            g, tb = next(st)
+            if rnd.random() < 0.3: g = gg.with_precedence(g, rnd)
+            add(g)
+            if rnd.random() < 0.15: add(gg.expr_grammar(rnd))
+            if rnd.random() < 0.1: add(gg.add_error_rules(g, rnd))
+    elif profile == 'decorated':
+        for g in core:
+            if ref_lr1.build(g).lr1: add(gg.decorate(g, rnd))
+        st = gg.grammar_stream(rnd, want_lr1=0.9)
+        while len(out) < n:
+            g, tb = next(st)
+            add(gg.decorate(g, rnd))
+    elif profile == 'values':     # C14: decorated + error rules + move-only instantiations
+        for g in gg.err_core(): add(gg.decorate(g, rnd, strings=0))
+        st = gg.grammar_stream(rnd, want_lr1=0.9)
+        while len(out) < n:
+            g, tb = next(st)
+            x = rnd.random()
+            if x < 0.3: g = gg.add_error_rules(g, rnd)
+            g = gg.decorate(g, rnd, typed=0.4)
+            if rnd.random() < 0.3:
+                g.vtypes = ['M'] * len(g.nts); g.tvtype = 'M'
+                g.rules = [gg.Rule(r.lhs, r.rhs, r.prec, 'f') for r in g.rules]
+            tb = ref_lr1.build(g)
+            if gg.classify(tb) in ('rr', 'acc'): continue
+            add(g)
+    elif profile == 'positions':  # C10
+        for g in positions_core(): add(g)
+        for g in gg.err_core(): add(g)
+        st = gg.grammar_stream(rnd, want_lr1=0.9)
+        while len(out) < n:
+            g, tb = next(st)
+            if rnd.random() < 0.2: g = gg.add_error_rules(g, rnd)
+            g = gg.decorate(g, rnd, vtypes=False, dflt=0, strings=0.4)
+            if rnd.random() < 0.3: g = multiline_terms(g, rnd)
+            if gg.classify(ref_lr1.build(g)) in ('rr', 'acc'): continue
+            add(g)
+    elif profile == 'verbose':    # C16
+        for g in core: add(g)
+        for g in gg.err_core(): add(g)
+        st = gg.grammar_stream(rnd, want_lr1=0.8)
+        while len(out) < n:
+            g, tb = next(st)
+            if rnd.random() < 0.25: g = gg.add_error_rules(g, rnd)
+            if rnd.random() < 0.5: g = gg.decorate(g, rnd)
+            if gg.classify(ref_lr1.build(g)) in ('rr', 'acc'): continue
+            add(g)
+    return out[:max(n, 0)] if profile != 'plain' else out
+
+def positions_core():
+    from .grammar import Grammar, Rule, Term
+    out = []
+    # newline as a term (meaningful with skip_newline=false)
+    g = Grammar(['S', 'L'], [Term('c', 'a'), Term('c', '\n'), Term('c', 'b')],
+                [Rule(0, [('n', 1)]), Rule(1, []), Rule(1, [('n', 1), ('t', 0), ('t', 1)]), Rule(1, [('n', 1), ('t', 2)])], 0, note='poscore:newline-term')
+    out.append(g)
+    # multi-line lexemes
+    g = Grammar(['S'], [Term('s', 'A\nB'), Term('c', 'x'), Term('s', '\n\n', typed=True), Term('s', 'q\tr')],
+                [Rule(0, []), Rule(0, [('n', 0), ('t', 0)]), Rule(0, [('n', 0), ('t', 1)]), Rule(0, [('n', 0), ('t', 2)]), Rule(0, [('n', 0), ('t', 3)])], 0, note='poscore:multiline')
+    out.append(g)
+    g = Grammar(['S'], [Term('c', '\r'), Term('c', '\t'), Term('c', 'x'), Term('c', ' ')],
+                [Rule(0, []), Rule(0, [('n', 0), ('t', 0)]), Rule(0, [('n', 0), ('t', 1)]), Rule(0, [('n', 0), ('t', 2)]), Rule(0, [('n', 0), ('t', 3)])], 0, note='poscore:whitespace-terms')
+    out.append(g)
+    return out
+
+def multiline_terms(g, rnd):
+    g = gg.clone(g)
+    used = {t.text for t in g.terms}
+    for j, t in enumerate(g.terms):
+        if t.kind == 's' and rnd.random() < 0.6:
+            k = rnd.randrange(1, len(t.text))
+            txt = t.text[:k] + rnd.choice(['\n', '\n\n', '\t', '\r\n']) + t.text[k:]
+            if txt not in used: g.terms[j] = gg.Term('s', txt, t.prec, t.assoc, None, t.typed); used.add(txt)
+    return g
+
+def run_pipeline(prop, tier, grammars, cfg, per_tu=8, flavour='clang'):
+    specs = []
+    for i in range(0, len(grammars), per_tu):
+        specs.append({'prop': prop, 'grammars': [g.to_json() for g in grammars[i:i + per_tu]], 'seed': common.seed() * 100003 + i,
+                      'flavour': flavour, 'cfg': cfg})
+    return common.pmap(pipeline.worker, specs)
+
+REF_ASSUME = ['reference canonical LR(1) construction, driver and lexer model (lib/vf/ref_lr1.py, lib/vf/model.py); the driver is cross-checked against an Earley recogniser by tools/setup.py',
+              'only grammars whose dumped table equals the reference table are judged here; table differences are reported by C01/C05/C11']
+
 @register('C01')
 def c01(tier):
     ck = Check('C01', tier)
-    cfg = {'modes': [0], 'exh_cap': 300 if tier == 'quick' else 700, 'exh_len': 5 if tier == 'quick' else 6,
-           'n_rand': 30, 'n_mut': 60, 'long': (30, 120) if tier == 'quick' else (60, 400, 1500)}
-    specs = grammar_batches('C01', tier, 192, 3000, 8, cfg)
-    outs = common.pmap(pipeline.worker, specs)
-    merge(ck, outs)
+    q = tier == 'quick'
+    cfg = {'modes': [0], 'exh_cap': 300 if q else 700, 'exh_len': 5 if q else 6, 'n_rand': 40, 'n_mut': 60, 'long': (30, 120) if q else (60, 400, 1500)}
+    merge(ck, run_pipeline('C01', tier, gen_grammars('C01', tier, 320 if q else 4000, 'plain'), cfg))
     ck.cov['rule'] = ('grammars: fixed core corpus + seeded random/mutated/spliced grammars, classified by a reference canonical LR(1) construction; '
                       'inputs: all term strings up to a length bound, random derivations, one-token mutations, raw bytes; a case is (grammar, input bytes); '
                       'distinct_nontrivial counts distinct (grammar,input) pairs whose grammar has >= 6 LR(1) states')
-    ck.assumptions += ['reference canonical LR(1) construction and driver (lib/vf/ref_lr1.py), cross-checked against an Earley recogniser in the self-test',
-                       'char terms only: the lexer is trivial here; lexing is the subject of C04']
+    ck.assumptions += REF_ASSUME[:1] + ['char terms only: the lexer is trivial here; lexing is the subject of C04']
+    return ck.finish(floor_events=1000)
+
+@register('C02')
+def c02(tier):
+    ck = Check('C02', tier)
+    q = tier == 'quick'
+    cfg = {'modes': [0], 'exh_cap': 200 if q else 500, 'exh_len': 5, 'n_rand': 60, 'n_mut': 40, 'long': (30, 200) if q else (100, 1000, 5000)}
+    merge(ck, run_pipeline('C02', tier, gen_grammars('C02', tier, 256 if q else 3000, 'decorated'), cfg))
+    ck.cov['rule'] = ('grammars as C01, decorated with mixed value types (two tracked types, long), rules without functor, typed terms, string terms; '
+                      'every functor logs (rule, ids of its arguments in order) and returns a fresh id; the log of each parse is compared with the post-order '
+                      'evaluation of the reference derivation tree; distinct_nontrivial = distinct accepted (grammar,input) pairs with >= 3 reductions')
+    ck.assumptions += REF_ASSUME
+    return ck.finish(floor_events=1000)
+
+@register('C09')
+def c09(tier):
+    ck = Check('C09', tier)
+    q = tier == 'quick'
+    cfg = {'modes': [0, 4], 'exh_cap': 300 if q else 600, 'exh_len': 5, 'n_rand': 30, 'n_mut': 80, 'long': (30, 120), 'n_raw': 16}
+    gs = gen_grammars('C09', tier, 160 if q else 2000, 'plain') + gen_grammars('C09', tier, 96 if q else 1000, 'decorated')
+    merge(ck, run_pipeline('C09', tier, gs, cfg))
+    ck.cov['rule'] = ('LR(1) grammars without error rules (char, string and typed terms); every input is parsed with a std::ostringstream; the complete stream text must equal '
+                      'the single expected message (or nothing), with the offending term decided by the reference; the bounds-monitoring buffer records how far the '
+                      'input was examined; distinct_nontrivial = distinct rejected (grammar,input) pairs')
+    ck.assumptions += REF_ASSUME
+    return ck.finish(floor_events=1000)
+
+@register('C10')
+def c10(tier):
+    ck = Check('C10', tier)
+    q = tier == 'quick'
+    cfg = {'modes': [0, 7, 8, 9], 'exh_cap': 120 if q else 300, 'exh_len': 4, 'n_rand': 40, 'n_mut': 40, 'long': (30, 120) if q else (100, 600),
+           'n_ws': 400, 'ws': 0.6, 'n_raw': 10}
+    merge(ck, run_pipeline('C10', tier, gen_grammars('C10', tier, 128 if q else 1500, 'positions'), cfg))
+    ck.cov['rule'] = ('grammars with char/string/typed terms, multi-line lexemes, newline and whitespace characters as terms, error rules; inputs dense in space, tab, CR, LF, VT, FF; '
+                      'all four skip_whitespace x skip_newline settings; every term value seen by a functor and every message position is compared with line/column computed from the '
+                      'byte offset; distinct_nontrivial = distinct (grammar,input,options) with at least one term on a line > 1')
+    ck.assumptions += REF_ASSUME
+    return ck.finish(floor_events=1000)
+
+@register('C11')
+def c11(tier):
+    ck = Check('C11', tier)
+    q = tier == 'quick'
+    cfg = {'modes': [1], 'exh_cap': 40, 'exh_len': 4, 'n_rand': 12, 'n_mut': 12, 'long': (20,), 'n_ws': 2, 'n_raw': 2}
+    merge(ck, run_pipeline('C11', tier, gen_grammars('C11', tier, 320 if q else 4000, 'allclasses'), cfg))
+    ck.cov['rule'] = ('grammars of all classes (conflict-free, S/R with random precedence, R/R, cyclic); write_diag_str text is parsed back and compared (a) with the reference LR(1) '
+                      'states/items/actions/conflicts, (b) cell by cell with the raw table read through the hook, (c) with the actions of verbose traces of real parses; '
+                      'a case is one grammar; distinct_nontrivial = distinct grammars with a conflict or >= 6 states')
+    ck.assumptions += REF_ASSUME[:1]
+    return ck.finish(floor_events=100)
+
+@register('C14')
+def c14(tier):
+    ck = Check('C14', tier)
+    q = tier == 'quick'
+    cfg = {'modes': [0], 'exh_cap': 150 if q else 400, 'exh_len': 5, 'n_rand': 40, 'n_mut': 80, 'long': (30, 200) if q else (100, 2000)}
+    merge(ck, run_pipeline('C14', tier, gen_grammars('C14', tier, 192 if q else 2500, 'values'), cfg, flavour='asan' if not q else 'clang'))
+    ck.cov['rule'] = ('grammars with tracked value types (copyable and move-only), typed terms, default functors and error rules; every value gets a unique id in a registry; '
+                      'after each parse (success, failure, recovery) the registry must balance: no object or payload alive, no library-made copy, no id consumed twice, '
+                      'no moved-from argument; distinct_nontrivial = distinct (grammar,input) runs that created >= 2 values')
+    ck.assumptions += REF_ASSUME[1:]
+    return ck.finish(floor_events=1000)
+
+@register('C16')
+def c16(tier):
+    ck = Check('C16', tier)
+    q = tier == 'quick'
+    cfg = {'modes': [0, 1, 2, 5, 6], 'exh_cap': 100 if q else 300, 'exh_len': 4, 'n_rand': 30, 'n_mut': 40, 'long': (30, 100) if q else (100, 500)}
+    merge(ck, run_pipeline('C16', tier, gen_grammars('C16', tier, 160 if q else 2000, 'verbose'), cfg))
+    ck.cov['rule'] = ('each (grammar,input) runs under verbose on/off x {no stream, std::ostringstream, user stream type}; results and functor logs must be identical; the verbose text is '
+                      'parsed into recognised/shift/reduce/goto/recovery events and compared with the action sequence of the reference driver (states renamed through the table '
+                      'isomorphism) and with the functor log; distinct_nontrivial = distinct (grammar,input) with >= 6 trace events')
+    ck.assumptions += REF_ASSUME
     return ck.finish(floor_events=1000)
 
 def replay(prop, path):
